@@ -61,6 +61,9 @@ type accReadings struct {
 	ParamInt, ParamIntAbsent int
 	ParamInt64               int64
 	ParamsLen                int
+	AfterSliceEdit           string // Query(name) after the caller edited the slice QueryStrings returned
+	AfterRewrite             string // Query("rewritten") after a handler rewrote URL.RawQuery
+	AfterRewriteInt          int
 }
 
 const (
@@ -118,6 +121,8 @@ func accOracle(c *accCase) accReadings {
 	w.Param = seg
 	w.ParamInt, w.ParamInt64 = pi(seg), pi64(seg)
 	w.ParamsLen = 2 // v and route
+	w.AfterSliceEdit = w.Query
+	w.AfterRewrite, w.AfterRewriteInt = "77", 77 // accessors read the request as it is now
 	return w
 }
 
@@ -220,6 +225,14 @@ func judgeAcc(w *core.W, c *accCase) {
 		got.ParamInt, got.ParamIntAbsent = ctx.ParamInt("v"), ctx.ParamInt("nope")
 		got.ParamInt64 = ctx.ParamInt64("v")
 		got.ParamsLen = len(ctx.Params())
+		// state must not be carried across calls: editing a returned slice or rewriting the query (the usual
+		// rewrite-middleware pattern) is reflected by / does not disturb later reads
+		if ss := ctx.QueryStrings(n); len(ss) > 0 {
+			ss[0] = "EDITED-BY-CALLER"
+		}
+		got.AfterSliceEdit = ctx.Query(n)
+		ctx.Request().URL.RawQuery = "rewritten=77"
+		got.AfterRewrite, got.AfterRewriteInt = ctx.Query("rewritten"), ctx.QueryInt("rewritten", 5)
 	})
 	var pan interface{}
 	func() {
